@@ -155,7 +155,8 @@ class Ctx(Partial):
             cov[k] = len(s)
         for k, v in self.maxes.items():
             cov[k] = v
-        cov.setdefault("states", max(1, cov.get("states", 0)))
+        # states = distinct end observations of schedule explorations + distinct BFS states
+        cov["states"] = max(1, cov.get("states", 0) + cov.get("bfs_states", 0))
         cov.setdefault("transitions", max(1, cov.get("transitions", 0)))
         cov.setdefault("traces_validated_against_impl", 0)
         cov["samples"] = self.samples[:8] or ["(none recorded)"]
